@@ -111,7 +111,8 @@ def C02(ctx):
     ctx.run(only_success(more), nontrivial=nt, runtime=True, switches=W_ONLY)
     if not ctx.quick:
         big = [c for c in ctx.export(G(4), pre_sample=30000) if verdict(c) == 'yes']
-        ctx.run(big, nontrivial=nt, runtime=True, switches=W_ONLY)
+        big += ctx.export('FamilyRBig(p, 6, 200)') + ctx.export('FamilyRBig(p, 7, 200)')      # random DAGs on 6 and 7 providers
+        ctx.run(only_success(big), nontrivial=nt, runtime=True, switches=W_ONLY)
 
 
 # ------------------------------------------------------------------ C03 / C04
@@ -142,7 +143,7 @@ def C03(ctx):
     ctx.res.cov['fault_points'] += sum(n_fault_points(c) for c in extra)
     ctx.run(extra, nontrivial=lambda c: True, runtime=True, switches=E_C)
     if not ctx.quick:
-        b5 = ctx.export('FamilyR(p, 5)', pre_sample=1500)
+        b5 = ctx.export('FamilyR(p, 5)', pre_sample=1500) + ctx.export('FamilyRBig(p, 6, 150)') + ctx.export('FamilyRBig(p, 7, 150)')
         ctx.res.cov['fault_points'] += sum(n_fault_points(c) for c in b5)
         ctx.run(b5, nontrivial=nt, runtime=True, switches=E_C)
 
@@ -161,7 +162,8 @@ def C04(ctx):
     ctx.run(only_success(big), nontrivial=nt, runtime=True, switches=(False, False, True))
     ctx.run(only_success(ctx.export('FamilyChain(p, {12})' if ctx.quick else 'FamilyChain(p, {11, 12, 25})')), nontrivial=nt, runtime=True, switches=(False, False, True))
     if not ctx.quick:
-        ctx.run(only_success(ctx.export('FamilyR(p, 5)', pre_sample=3000)), nontrivial=nt, runtime=True, switches=(False, False, True))
+        ctx.run(only_success(ctx.export('FamilyR(p, 5)', pre_sample=3000) + ctx.export('FamilyRBig(p, 6, 200)') + ctx.export('FamilyRBig(p, 7, 200)')),
+                nontrivial=nt, runtime=True, switches=(False, False, True))
 
 
 # ------------------------------------------------------------------ C05
